@@ -127,6 +127,11 @@ class Body:
         if k == "bytes":
             x = self.fresh("w")
             self.ss.append("let mut %s: Bytes = Bytes::new();" % x)
+            if len(v["b"]) > 64 and list(v["b"]) == long_pattern(len(v["b"])):
+                i = self.fresh("i")          # long values of the buffer-boundary cases: pushed by a loop
+                self.ss.append("let mut %s: u64 = 0; while %s < %d { %s.push(((%s * 7 + 3) %% 251).try_as_u8().unwrap()); %s += 1; }"
+                               % (i, i, len(v["b"]), x, i, i))
+                return x
             for b in v["b"]:
                 self.ss.append("%s.push(%du8);" % (x, b))
             return x
@@ -543,6 +548,41 @@ def pick_invalid(r, nbool=2, ntag=2, ntrunc=1):
         else:
             xs = xs[:: max(1, len(xs) // n)][:n] if xs else []
         out += xs
+    return out
+
+
+def long_pattern(n):
+    return [(i * 7 + 3) % 251 for i in range(n)]
+
+
+def boundary_recs(quick, seed):
+    """Hand-placed records around the capacity of the encoder's buffer (1024 bytes initially, doubled on demand):
+    tuples of byte strings whose running encoded size ends within the last bytes before the capacity, at it,
+    and just past it.  Types and values are ordinary pool terms; the trace spec computes their encoding itself."""
+    BY = {"k": "bytes", "n": 0, "es": []}
+    ST = {"k": "string", "n": 0, "es": []}
+    SR = {"k": "str", "n": 0, "es": []}
+
+    def sv(bs):
+        return {"k": "s", "b": list(bs)}
+
+    def enc1(bs):
+        return list(len(bs).to_bytes(8, "big")) + list(bs)
+
+    def rec(ts, vals):
+        return {"t": {"k": "tuple", "n": 0, "es": ts}, "cls": {"size": 0, "static": False, "depth": 1, "boundary": True},
+                "reps": [{"v": {"k": "a", "es": [sv(b) for b in bs]}, "enc": sum((enc1(b) for b in bs), [])} for bs in vals],
+                "invalid": []}
+    asc = lambda n: [97 + (i % 26) for i in range(n)]
+    pairs = [(1017, 3), (1020, 5), (1024, 1), (1000, 16), (1016, 8), (1008, 1), (1001, 7), (1009, 7)]
+    if quick:
+        pairs = [pairs[seed % len(pairs)], pairs[(seed + 3) % len(pairs)], (1016, 8)]
+    else:
+        pairs += [(2040, 3), (2033, 7), (3000, 1090)]
+    out = [rec([BY, BY], [[long_pattern(a), long_pattern(b)[:b]] for a, b in pairs])]
+    spairs = [(1005, 3), (1000, 9)] if quick else [(1005, 3), (1000, 9), (1008, 0), (1010, 6), (1016, 0)]
+    out.append(rec([ST, BY], [[asc(a), long_pattern(b)] for a, b in spairs]))
+    out.append(rec([BY, SR], [[long_pattern(a), asc(b)] for a, b in ([(1001, 8), (1003, 5)] if quick else [(1001, 8), (1003, 5), (1007, 1), (1000, 16)])]))
     return out
 
 
